@@ -345,6 +345,13 @@ def run(tier, seed):
         f = common.run_cases(PID, 'expl', PRE, cases, 'xcase_ok', shard=300)
         nm = common.run_cases(PID, 'explm', PRE, cases, 'xcase_modelled', shard=300)
         rep.cov['sentences_outside_model'] = len(nm)
+        # the closed form of the theorem (facts of declared concepts) directly against the implementation's sentences, and how many
+        # observed atoms the theorem speaks about
+        out_scope = common.run_cases(PID, 'scope', PRE, cases, 'xcase_fact_scope', shard=300)
+        cf = common.run_cases(PID, 'closed', PRE, cases, 'xcase_closed_form_ok', shard=300)
+        rep.cov['atoms_in_scope_of_closed_form_theorem'] = len(cases) - len(out_scope)
+        if cf:
+            tie_broken.append('the closed form of C15_fact_sentence_closed_form_partial differs from the implementation on %d atoms, first: %r' % (len(cf), meta[cf[0]]))
         if f:
             tie_broken.append('explanation model differs from the implementation on %d atoms, first: %r' % (len(f), meta[f[0]]))
     if not proof['ok']:
